@@ -16,6 +16,7 @@ RULE = ("(a) generated evaluation histories (single point, batch, empty batch, b
         "(class, dimension, digest of op kinds / box); non-trivial = history with >=1 batch and >=1 repeated point, or integral "
         "over a box that is not the unit cube / is cut by a kink")
 RULE += (" " + 'Evaluation points include coordinates exactly on the declared break points of the class (borders / mid points).')
+RULE += (" Points with whole-number coordinates are also handed over as python ints, as integer-typed numpy batches and mixed with floats (the same points, hence the same values and cache entries).")
 RULE += (" In a third of the calls the caller then modifies the returned array in place (the result belongs to the caller; the cache must not alias it).")
 REQUIRED = ["value_single", "value_batch", "shape_single", "shape_batch", "empty_batch", "value_vectorized", "counter",
             "analytic_integral", "nocache_single", "cache_coherence_after_run"]
@@ -143,9 +144,31 @@ def make_history_function(name, d, rng):
 SPECIAL = {"values": []}
 
 
+INT_POINTS = {"on": False}
+
+
+def gen_int_point(rng, d, dom):
+    # whole-number coordinates handed over as python ints: (1, 2) and (1.0, 2.0) are the same point (and the same cache key)
+    if dom in ("unit", "unit_exact"):
+        return tuple(rng.choice([0, 1]) for _ in range(d))
+    if dom in ("positive", "positive_away"):
+        return tuple(rng.choice([1, 2, 3]) for _ in range(d))
+    return tuple(rng.choice([-2, -1, 0, 1, 2, 3]) for _ in range(d))
+
+
 def gen_point(rng, d, dom, pool):
+    if INT_POINTS["on"]:
+        p = gen_int_point(rng, d, dom)
+        pool.append(p)
+        return p
     if pool and rng.random() < 0.35:
         return rng.choice(pool)
+    if rng.random() < 0.08:
+        p = gen_int_point(rng, d, dom)
+        if rng.random() < 0.3 and d > 1:
+            p = ((0.25 if dom in ("unit", "unit_exact") else float(p[0]) + 0.25),) + p[1:]     # ints and floats mixed in one point
+        pool.append(p)
+        return p
     if SPECIAL["values"] and rng.random() < 0.25:
         # coordinates exactly on the function's own break points (borders / mid points), others strictly below them
         sp = SPECIAL["values"]
@@ -228,14 +251,25 @@ def run_history(case, res):
                 res.count("caller_mutated_result")
         elif r < 0.55:
             n = rng.choice([1, 2, 3, 5, 9])
+            int_batch = rng.random() < 0.15
+            INT_POINTS["on"] = int_batch
             batch = [gen_point(rng, d, dom, pool) for _ in range(n)]
+            INT_POINTS["on"] = False
             if rng.random() < 0.4 and n > 1:
                 batch[-1] = batch[0]
             kinds.append("batch%d" % n)
             nbatch += 1
             nrep += sum(1 for p in batch if p in seen) + (len(batch) - len(set(batch)))
             form = rng.random()
-            if form < 0.15:
+            if int_batch and form < 0.6:
+                v = f(np.array(batch))               # integer-typed array (dtype int64)
+                kinds.append("batch_as_int_array")
+                res.count("integer_typed_batch")
+            elif int_batch:
+                v = f(batch)                          # list of tuples of python ints
+                kinds.append("batch_of_int_tuples")
+                res.count("integer_typed_batch")
+            elif form < 0.15:
                 v = f([list(p) for p in batch])      # a batch does not have to be a list of tuples
                 kinds.append("batch_as_lists")
             elif form < 0.3:
@@ -274,9 +308,12 @@ def run_history(case, res):
                 flat = [p for row in pts for p in row]
             else:
                 n = rng.randint(1, 6)
+                int_arr = rng.random() < 0.15
+                INT_POINTS["on"] = int_arr
                 flat = [gen_point(rng, d, dom, pool) for _ in range(n)]
-                arr = np.array(flat, dtype=float)
-                kinds.append("vec2d")
+                INT_POINTS["on"] = False
+                arr = np.array(flat) if int_arr else np.array(flat, dtype=float)
+                kinds.append("vec2d_int" if int_arr else "vec2d")
             v = np.asarray(f.eval_vectorized(arr), dtype=float)
             exp = np.array([truth(p) for p in flat]).reshape(arr.shape[:-1] + (ol,))
             try:
